@@ -216,7 +216,10 @@ pub fn make_sig<C: BlsSignatureImpl + Clone>(lib: &Lib, sr: &Value) -> Result<(S
     } else {
         let (t, n, cnt) = (geti(sr, "t") as usize, geti(sr, "n") as usize, geti(sr, "cnt") as usize);
         let sh = deal::<C>(&sk, t, n, lib.conc.seed).map_err(|e| e.to_string())?;
-        let parts: Vec<SignatureShare<C>> = sh[..cnt].iter().map(|s| s.sign(scheme_of(scheme), &id).unwrap()).collect();
+        let mut parts: Vec<SignatureShare<C>> = sh[..cnt].iter().map(|s| s.sign(scheme_of(scheme), &id).unwrap()).collect();
+        if gets(sr, "route") == "shares_rev" {
+            parts.reverse();
+        }
         *Signature::<C>::from_shares(&parts).map_err(|e| e.to_string())?.as_raw_value()
     };
     match gets(sr, "how") {
